@@ -96,6 +96,11 @@ def run(R):
             body = bytes(R.rng.randrange(256) for _ in range(L)) if raw else S.rs(R.rng, S.A64, L)
             ph = bytes(R.rng.randrange(1, 256) for _ in range(R.rng.choice([1, 8, 20, 64, 65])))
             ops.append(CS.crypt_op("rn", 0, ph, salted(m, body))); meta.append((m, "salt-length", len(ph), L))
+    # the costs people actually use: crypt_gensalt's default `$y$j9T$` / `$gy$j9T$` (N = 4096, r = 32: exactly at the threshold of yescrypt's pre-hash
+    # pass, N/p*r == 0x20000) and its neighbours on both sides and at the same product (seeded/C02d); few phrases, they cost 16-32 MiB each
+    for st in [b"$y$j9T$saltsalt", b"$gy$j9T$saltsalt", b"$y$jB5$abcd", b"$y$j8T$abcd", b"$y$jAT$abcd", b"$y$j9T$" + S.enc64(bytes(range(16)))]:
+        for ph in ([b"pw", bytes(R.rng.randrange(1, 256) for _ in range(33))] if quick else [b"pw", b"", bytes(range(1, 65)), bytes(R.rng.randrange(1, 256) for _ in range(200))]):
+            ops.append(CS.crypt_op("rn", 0, ph, st)); meta.append(("gost_yescrypt" if st.startswith(b"$gy$") else "yescrypt", "default-cost", len(ph), len(st)))
     ops, meta, il, ml = CS.run_budgeted(R, ops, meta, group_starts=list(range(len(ops))))
     diffs = compare(R, ops, il, ml, CS.proj_crypt, "full hashes")
     hamlet = bytes(R.genvals["B"]["hamlet_quotation"]) if hasattr(R, "genvals") else None
